@@ -127,6 +127,15 @@ def o3(tier):
     return ob.done(cases=len(paths) + len(paths2))
 
 
+@guard
+def o4(tier):
+    from props import C01
+    r = C01.o7(tier)
+    r.oid = 'O4'
+    r.title = 'process_mls_message (shared with C01-O7): the echo of an own message is taken for the pending own commit only if it is a Commit and a commit is pending'
+    return r
+
+
 def run(tier, seed, only=None):
-    obs = [('O1', o1), ('O2', o2), ('O3', o3)]
+    obs = [('O1', o1), ('O2', o2), ('O3', o3), ('O4', o4)]
     return [f(tier) for k, f in obs if not only or k in only]
